@@ -1,8 +1,10 @@
 import MpsVerif.Drv.Fifo
 import MpsVerif.Drv.ProcOutcome
+import MpsVerif.Drv.LogPipe
 
 def main (args : List String) : IO UInt32 := do
   match args with
   | ["fifo"] => Fifo.Drv.main; return 0
   | ["procoutcome"] => ProcOutcome.Drv.main; return 0
+  | ["logpipe"] => LogPipe.Drv.main; return 0
   | _ => IO.eprintln s!"usage: drv <model>   (models: fifo)"; return 2
